@@ -72,6 +72,8 @@ type Engine struct {
 
 	// AfterOp is called after every op
 	AfterOp func(e *Engine, op Op, res string)
+	// AckHook is called after every successful ACK with the queue structure before and after it
+	AckHook func(e *Engine, n int, before, after ChainState)
 	// Snaps: model state after every completed op (for crash exploration)
 	Snaps []Snap
 
@@ -450,6 +452,11 @@ func (e *Engine) apply(op Op) string {
 			// the ACK needs the write lock; the reader's transaction must be closed first
 			e.apply(Op{Kind: "rdone"})
 		}
+		var before ChainState
+		var berr error
+		if e.AckHook != nil {
+			before, berr = e.Chain()
+		}
 		e.Disk.Marker("pq-op-begin")
 		err := e.Queue.ACK(uint(n))
 		if err != nil {
@@ -459,6 +466,11 @@ func (e *Engine) apply(op Op) string {
 		}
 		e.Disk.Marker("pq-op-ok")
 		e.Acked += n
+		if e.AckHook != nil && berr == nil {
+			if after, aerr := e.Chain(); aerr == nil {
+				e.AckHook(e, n, before, after)
+			}
+		}
 		return ""
 
 	case "ackbad":
@@ -665,4 +677,62 @@ func (e *Engine) RawStream() (stream []byte, payload, startPos, events, pages in
 		return nil, 0, 0, 0, 0, fmt.Errorf("the read position (page %d) is not on the page chain", startPage)
 	}
 	return stream, payload, startPos, int(tailID - startID), idx, nil
+}
+
+// PageInfo is the header of one event page of the chain.
+type PageInfo struct {
+	ID, First, Last uint64
+	Off             uint32
+}
+
+// ChainState is the queue root plus the headers of the page chain (from the head page).
+type ChainState struct {
+	HeadPage, HeadID, ReadPage, ReadID, TailID, InUse uint64
+	ReadOff                                           int
+	Pages                                             []PageInfo
+}
+
+// Chain reads the queue root and walks the page chain in a read transaction.
+func (e *Engine) Chain() (cs ChainState, err error) {
+	tx, err := e.File.BeginReadonly()
+	if err != nil {
+		return cs, err
+	}
+	defer tx.Close()
+	ps := uint64(tx.PageSize())
+	rootPage, err := tx.Page(tx.Root())
+	if err != nil {
+		return cs, err
+	}
+	rb, err := rootPage.Bytes()
+	if err != nil {
+		return cs, err
+	}
+	le := func(b []byte) uint64 {
+		var v uint64
+		for i := len(b) - 1; i >= 0; i-- {
+			v = v<<8 | uint64(b[i])
+		}
+		return v
+	}
+	headOff, readOff := le(rb[4:12]), le(rb[36:44])
+	cs.HeadPage, cs.HeadID = headOff/ps, le(rb[12:20])
+	cs.ReadPage, cs.ReadOff, cs.ReadID = readOff/ps, int(readOff%ps), le(rb[44:52])
+	cs.TailID, cs.InUse = le(rb[28:36]), le(rb[52:60])
+	for id := cs.HeadPage; id != 0; {
+		p, err := tx.Page(txfile.PageID(id))
+		if err != nil {
+			return cs, err
+		}
+		b, err := p.Bytes()
+		if err != nil {
+			return cs, err
+		}
+		cs.Pages = append(cs.Pages, PageInfo{ID: id, First: le(b[8:16]), Last: le(b[16:24]), Off: uint32(le(b[24:28]))})
+		id = le(b[0:8])
+		if len(cs.Pages) > 1<<16 {
+			return cs, fmt.Errorf("page chain too long (cycle?)")
+		}
+	}
+	return cs, nil
 }
